@@ -3,9 +3,12 @@
    records the observables the implementation produced (one per distinct
    outcome over its repetitions) and the model is run for EVERY iteration order
    [ord] (all permutations of the key list, or an explicit list of orders for
-   large graphs): each recorded observable must be the model's for at least one
-   [ord], and the class of the observable (every diagnostic, the cyclic one
-   reduced to its kind) must be the model's for all [ord]. *)
+   large graphs).  Since detectFirstCycle sorts the nodes by position the
+   model's set of diagnostics is the same for every order
+   (NeedsOrder.v, [run_order_indep]); the comparison is exact: EVERY recorded
+   observable must equal, as a set of tuples, the model's for EVERY order —
+   an implementation whose reported cycle varies from run to run, or differs
+   from the one the position order determines, fails it. *)
 From AL Require Import Base.Str Base.AList Base.Corr Graph.Dfs Graph.Needs.
 Local Open Scope N_scope.
 
@@ -17,7 +20,7 @@ Definition obs_diag (m : nodes) (d : diag) : tuple :=
   | DDupNeed (l, c) _ => [0; l; c]
   | DDupJob (l, c) _ => [1; l; c]
   | DMissing (l, c) id dep => 2 :: l :: c :: bytes id ++ 256 :: bytes dep
-  | DCycle (l, c) cyc => 3 :: l :: c :: map (fun v => fst (pos_of m v)) cyc
+  | DCycle (l, c) cyc => 3 :: l :: c :: map (fun v => fst (pos_of m v) * 1000000 + snd (pos_of m v)) cyc
   end.
 
 (* observable of VisitWorkflowPost on a table, after the diagnostics [pre] of VisitJobPre *)
@@ -69,10 +72,9 @@ Definition k_check (c : kcase) : bool :=
   let (pre, m) := collect_jobs [] jobs in           (* VisitJobPre does not depend on [ord] *)
   let ords := match ords0 with [] => perms (keys m) | _ => ords0 end in
   let outs := map (obs_table pre m) ords in         (* = map (obs jobs) ords *)
-  forallb (fun o => existsb (fun x => same_set x o || same_set (map class_of x) o) outs) impl
-  && match impl with
-     | [] => false
-     | o0 :: _ => forallb (fun x => same_set (map class_of x) (map class_of o0)) outs
-     end.
+  match impl with
+  | [] => false
+  | _ => forallb (fun o => forallb (fun x => same_set x o) outs) impl
+  end.
 
 Definition run_k (c : kcase) : list tuple := [[if k_check c then 1 else 0]].
